@@ -2,6 +2,8 @@ import Pendulum.Proofs.PD5
 import Pendulum.Proofs.IvRebuild
 import Pendulum.Proofs.PDGen
 import Pendulum.Proofs.PDGenRs
+import Pendulum.Proofs.IntervalGenInit
+import Pendulum.Proofs.IntervalGenPD
 /-! # C06 — Interval components are canonical and rebuild the end from the start
 
 Theorems about `Model/PreciseDiff.lean` (the repaired `precise_diff`, both implementations) and
@@ -629,5 +631,56 @@ example : Gen.RsPreciseDiff.core false 30 2021 5 2 0 0 0 0 2021 6 1 0 0 0 0 = [0
 example : PDGen.sourcePreciseDiffRs ex3 ex4 = [0, 0, 0, 23, 15, 0, 0, 0] ∧
     PDGen.sourcePreciseDiffRs ex4 ex3 = [0, 0, 0, -23, -15, 0, 0, 0] ∧
     Gen.RsPreciseDiff.shift_timestamp 2021 3 1 0 30 0 3600 = 1614555000 := by decide +kernel
+
+/-! ### … and the object around it (`src/pendulum/interval.py`, tools/gen_interval.py → `Pendulum.Gen.Interval`)
+
+`Interval.__init__` (endpoint normalisation, the native copies handed to `precise_diff`, `_invert`, the `absolute` swap) and the
+component properties are regenerated statement by statement; these theorems tie them to `IntervalPD.mk` and `Iv.components`.
+`IntervalGen.RepEP env A a`: the generated pendulum endpoint `A` (class, civil fields, fold, tzinfo identity) denotes the model
+endpoint `a`; `IntervalGen.EnvOk env`: what the model assumes about `>` on datetimes (wall clocks for one tzinfo object, instants
+otherwise). -/
+section RegeneratedInterval
+open Pendulum.IntervalGen
+open Pendulum.Gen.Interval (Ep Kind Env Self)
+
+/-- `Interval.__init__` as written in the source, for two pendulum endpoints: `_invert`, `_absolute`, `_start`, `_end` are those of
+    the model `IntervalPD.mk`, and the two values handed to `precise_diff` are the model's `EP.native` — same civil fields,
+    **fold dropped**, `datetime` for a DateTime and `date` for a Date -/
+theorem init_source_eq_model (rs : Bool) (env : Env) (ok : EnvOk env) (A B : Ep) (a b : IntervalPD.EP)
+    (hA : RepEP env A a) (hB : RepEP env B b) (hc : Compat A B) (absolute : Bool) :
+    ∃ r, Gen.Interval.init env A B absolute = .ok r ∧
+      r.invert = (IntervalPD.mk rs a b absolute).invert ∧ r.absolute = (IntervalPD.mk rs a b absolute).absolute ∧
+      RepEP env r.start (IntervalPD.mk rs a b absolute).start ∧ RepEP env r.end_ (IntervalPD.mk rs a b absolute).stop ∧
+      toE r.pd_start (IntervalPD.mk rs a b absolute).start.native.off = (IntervalPD.mk rs a b absolute).start.native ∧
+      toE r.pd_end (IntervalPD.mk rs a b absolute).stop.native.off = (IntervalPD.mk rs a b absolute).stop.native ∧
+      r.pd_start.fold = false ∧ r.pd_end.fold = false :=
+  init_eq_mk rs env ok A B a b hA hB hc absolute
+
+/-- the getters `years, months, weeks, remaining_days, hours, minutes, remaining_seconds, microseconds, in_months(), in_days()`
+    as written in the source are the model's `Iv.components`; `hdays`: the sign of `Duration._days` is the one the model reads off
+    the elapsed microseconds — which is what `Duration.__new__` computes (second part) -/
+theorem components_source_eq_model {α : Type} (self : Self α) (i : IntervalPD.Iv) (hd : self.delta = pdtOf i.delta)
+    (hdays : self.days < 0 ↔ i.elapsed ≤ -86400000000) :
+    [Gen.Interval.p_years self, Gen.Interval.p_months self, Gen.Interval.p_weeks self, Gen.Interval.p_remaining_days self,
+     Gen.Interval.p_hours self, Gen.Interval.p_minutes self, Gen.Interval.p_remaining_seconds self,
+     Gen.Interval.p_microseconds self, Gen.Interval.in_months self, Gen.Interval.in_days self] = i.components ∧
+    ((Pickle.normState i.elapsed 0 0).days < 0 ↔ i.elapsed ≤ -86400000000) :=
+  ⟨components_eq self i hd hdays, days_sign_satisfiable i.elapsed⟩
+
+/-! non-vacuity: `__init__` on an inverted absolute pair (the stored endpoints are swapped, the natives lose their fold) and the
+getters on the components of 2021-03-01T00:30+01:00 → 2024-02-29T23:45+01:00 -/
+example : Gen.Interval.init (refEnv exZone) ⟨.pdt, 2020, 1, 2, 3, 4, 5, 6, true, 1⟩ ⟨.pdt, 2020, 1, 1, 0, 0, 0, 0, true, 1⟩ true
+    = .ok ⟨true, true, ⟨.pdt, 2020, 1, 1, 0, 0, 0, 0, true, 1⟩, ⟨.pdt, 2020, 1, 2, 3, 4, 5, 6, true, 1⟩,
+           ⟨.ndt, 2020, 1, 1, 0, 0, 0, 0, false, 1⟩, ⟨.ndt, 2020, 1, 2, 3, 4, 5, 6, false, 1⟩⟩ := by decide +kernel
+example : Gen.Interval.init (refEnv exZone) ⟨.pdate, 2020, 2, 29, 0, 0, 0, 0, false, 0⟩ ⟨.ndate, 2025, 1, 1, 0, 0, 0, 0, false, 0⟩ false
+    = .ok ⟨false, false, ⟨.pdate, 2020, 2, 29, 0, 0, 0, 0, false, 0⟩, ⟨.pdate, 2025, 1, 1, 0, 0, 0, 0, false, 0⟩,
+           ⟨.ndate, 2020, 2, 29, 0, 0, 0, 0, false, 0⟩, ⟨.pdate, 2025, 1, 1, 0, 0, 0, 0, false, 0⟩⟩ := by decide +kernel
+example : (let self : Self Unit := ⟨(), (), false, false, pdtOf (IntervalPD.mk false epA epC false).delta, 1095, 0⟩
+    [Gen.Interval.p_years self, Gen.Interval.p_months self, Gen.Interval.p_weeks self, Gen.Interval.p_remaining_days self,
+     Gen.Interval.p_hours self, Gen.Interval.p_minutes self, Gen.Interval.p_remaining_seconds self,
+     Gen.Interval.p_microseconds self, Gen.Interval.in_months self, Gen.Interval.in_days self]) =
+    [2, 11, 4, 0, 23, 15, 0, 0, 35, 1095] := by decide +kernel
+
+end RegeneratedInterval
 
 end Pendulum.Props.C06
